@@ -60,13 +60,19 @@ def check_number(ctx, rep, rng, tier):
     model = ctx["model"]
     tail = b"\x5a\xa5"
     for v in number_values(rng, tier):
-        bs = w(ai.write_uint64, v)
         rep.count(("num", v), nontrivial=v >= 128)
-        cls = len(bs)
-        rep.dist("number_encoded_length", cls)
-        f = io.BytesIO(bs + tail)
-        back = ai.read_uint64(f)
-        rest = f.read()
+        try:
+            bs = w(ai.write_uint64, v)
+            f = io.BytesIO(bs + tail)
+            back = ai.read_uint64(f)
+            rest = f.read()
+        except Exception as e:  # noqa
+            rep.violation("NUMBER: value %d: %s: %s" % (v, type(e).__name__, e), {"kind": "number", "value": v},
+                          match_keys={"kind": "number"})
+            if len(rep.violations) > 3:
+                return
+            continue
+        rep.dist("number_encoded_length", len(bs))
         bad = None
         if back != v or rest != tail:
             bad = "read_uint64(write_uint64(v)) = %r, rest %r" % (back, rest)
@@ -272,7 +278,10 @@ def check_translation(ctx, rep, rng, tier):
         return
     n = 0
     for v in number_values(rng, "quick")[:: 3 if tier == "quick" else 1]:
-        bs = w(ai.write_uint64, v)
+        try:
+            bs = w(ai.write_uint64, v)
+        except Exception:  # noqa  (reported by check_number with the value as replay)
+            continue
         g = model.call("gen_write_uint64", v)
         ok = g[0] == 0 and bytes(g[1]) == bs
         r = model.call("gen_read_uint64", list(bs + b"\x01\x02"))
@@ -314,20 +323,26 @@ def run(ctx):
                        "random per class; boolean vectors of every length 0..130 x 6 patterns x both modes; names over BMP/"
                        "astral/control; time/attribute vectors with every definedness shape; non-trivial = value >= 128 / "
                        "non-empty vector; distinct by value")
-    check_translation(ctx, rep, rng, tier)
-    check_number(ctx, rep, rng, tier)
-    check_boolean(ctx, rep, rng, tier)
-    check_names(ctx, rep, rng, tier)
-    check_fixed(ctx, rep, rng, tier)
-    check_vectors(ctx, rep, rng, tier)
+    for part in (check_translation, check_number, check_boolean, check_names, check_fixed, check_vectors):
+        try:
+            part(ctx, rep, rng, tier)
+        except Exception as e:  # noqa
+            import traceback
+            rep.violation("%s raised %s: %s" % (part.__name__, type(e).__name__, e),
+                          {"kind": "exception", "part": part.__name__, "trace": traceback.format_exc()[-1500:]},
+                          match_keys={"kind": "exception"})
 
 
 def replay(d):
     r = d["replay"]
     if r.get("kind") == "number":
         v = r["value"]
-        bs = w(ai.write_uint64, v)
-        back = ai.read_uint64(io.BytesIO(bs))
+        try:
+            bs = w(ai.write_uint64, v)
+            back = ai.read_uint64(io.BytesIO(bs))
+        except Exception as e:  # noqa
+            print("value", v, "raises", type(e).__name__, e)
+            return 1
         print("value", v, "bytes", bs.hex(), "read back", back)
         return 0 if back == v else 1
     if r.get("kind") == "vectors":
